@@ -480,6 +480,19 @@ class IntegralGenerator:
 
         A_shape = self.ir.expression.tensor_shape
 
+        if self.ir.part == TensorPart.diagonal and block_rank == 2:
+            # Only blocks whose test and trial arguments address the same dofs have
+            # entries on the diagonal; blocks coupling different components or
+            # different restrictions ('+' with '-') are off-diagonal
+            blocklist = [
+                b
+                for b in blocklist
+                if (b.ma_data[0].tabledata.offset, b.ma_data[0].tabledata.block_size)
+                == (b.ma_data[1].tabledata.offset, b.ma_data[1].tabledata.block_size)
+            ]
+            if not blocklist:
+                return quadparts, intermediates
+
         for blockdata in blocklist:
             B_indices = []
             for i in range(block_rank):
